@@ -268,9 +268,9 @@ def clauses_dgms(case, status, tgt, oth):
     elif isinstance(lab, str):
         labs = [lab] * len(idx)
     else:
-        if any(not (0 <= i < len(lab)) for i in idx) or (not po and len(lab) < len(dg)):
+        if (po and any(not (-len(lab) <= i < len(lab)) for i in po)) or (not po and len(lab) < len(dg)):
             return []      # fewer labels than diagrams: outside the quantifier
-        labs = [lab[i] for i in idx] if po else list(lab)[:len(dg)]
+        labs = [lab[i] for i in po] if po else list(lab)[:len(dg)]      # Python indexing into the list that was supplied
     sel = [dg[i] for i in idx]
     bad = []
     life = case["lifetime"]
@@ -362,7 +362,7 @@ def clauses_match(case, status, tgt, oth):
     if case["given"] and not pristine(oth):
         bad.append("artists landed on the axes that was NOT given (%d lines there)" % len(oth["lines"]))
     guides = [l for l in tgt["lines"] if l["label"] == "$\\infty$"
-              or (l["xs"] == l["ys"] and l["xs"] == tgt["xlim"] and l["ls"] == "--" and l["lw"] != 1.0)]
+              or (l["xs"] == l["ys"] and l["ls"] == "--" and l["lw"] not in (1.0, 2.0) and l["color"] == "#000000")]
     rest = [l for l in tgt["lines"] if not any(l is g for g in guides)]
     if len(rest) != len(segs):
         bad.append("%d segments on the given axes for %d rows that are not (-1,-1)" % (len(rest), len(segs)))
@@ -737,11 +737,12 @@ def run(ctx):
         "landscapes/visuals": common.source_digest("persim/landscapes/visuals.py",
                                                    ["plot_landscape_exact_simple", "plot_landscape_approx_simple"])}
     cases = corpus()
-    for _ in range(ctx.n(700, 9000)):
+    for _ in range(ctx.n(600, 9000)):
         cases.append(gen_dgms_case(ctx) if r.random() < 0.55 else gen_match_case(ctx))
     lines = [line_dgms(c) if c["op"] == "dgms" else line_match(c) for c in cases]
     answers = ask(lines)
     cov = common.LineCov(["persim/visuals.py"])
+    rs = {"found": 0, "nofound": 0, "silent": 0}
     for k, (case, model) in enumerate(zip(cases, answers)):
         if k < 250:
             with cov:
@@ -777,20 +778,38 @@ def run(ctx):
             if any(x[0] == -1 and x[1] != -1 for x in case["rows"]):
                 ctx.count("rows:has_i=-1")
             diff = compare_fig(model, status, tgt, oth, case["given"], sty)
-        if diff:
-            failed = (clauses_dgms if case["op"] == "dgms" else clauses_match)(case, status, tgt, oth)
-            ctx.violation("%s: code and model differ (%s); statement clauses failing on the read-back artists: %s"
-                          % (case["op"], diff, failed or "none"), case, found_input=bool(failed),
-                          correspondence=lines[k], difference=diff, clauses=failed)
-            if len(ctx.violations) > 5:
+        # [T] the statement's clauses, evaluated on the read-back artists of EVERY case (independent of the model)
+        failed = (clauses_dgms if case["op"] == "dgms" else clauses_match)(case, status, tgt, oth)
+        ctx.test("statement_clauses:" + case["op"], not failed)
+        if diff or failed:
+            if not report(ctx, rs, "%s: %s; statement clauses failing on the read-back artists: %s"
+                          % (case["op"], ("code and model differ (%s)" % diff) if diff else "code and model agree",
+                             failed or "none"), case, failed, lines[k], diff):
                 break
     ctx.extra["line_coverage"] = cov.summary()
-    if len(ctx.violations) <= 5:
-        landscapes(ctx)
+    if rs["found"] < 3:
+        landscapes(ctx, rs)
+    if rs["silent"]:
+        ctx.count("disagreements without a failing clause beyond the first two (searched, not reported)", rs["silent"])
 
 
-def landscapes(ctx):
-    cases = [gen_land_case(ctx) for _ in range(ctx.n(80, 800))]
+def report(ctx, rs, what, case, failed, line, diff):
+    """a disagreement is reported with `found_input` iff a clause of the statement fails on the real code's artists.
+    The search goes on through the rest of the stream: only the first two disagreements WITHOUT a failing input are
+    written out, and the run stops after three failing inputs.  Returns False when the run should stop."""
+    if failed:
+        rs["found"] += 1
+        ctx.violation(what, case, found_input=True, correspondence=line, difference=diff, clauses=failed)
+    elif rs["nofound"] < 2:
+        rs["nofound"] += 1
+        ctx.violation(what, case, found_input=False, correspondence=line, difference=diff, clauses=[])
+    else:
+        rs["silent"] += 1
+    return rs["found"] < 3
+
+
+def landscapes(ctx, rs):
+    cases = [gen_land_case(ctx) for _ in range(ctx.n(60, 800))]
     done = []
     for case in cases:
         got = run_land(case)
@@ -804,11 +823,12 @@ def landscapes(ctx):
         ctx.case(case, status == "ok" and isinstance(model, list) and len(model) >= 1, sample_every=53)
         ctx.count("land:%s:%s" % (case["kind"], status))
         diff = compare_land(model, status, tgt, oth, case["given"], sty, case)
-        if diff:
-            failed = clauses_land(case, data, ss, status, tgt, oth)
-            ctx.violation("landscape plot: code and model differ (%s); statement clauses failing: %s" % (diff, failed or "none"),
-                          case, found_input=bool(failed), correspondence=line, difference=diff, clauses=failed)
-            if len(ctx.violations) > 5:
+        failed = clauses_land(case, data, ss, status, tgt, oth)
+        ctx.test("statement_clauses:land", not failed)
+        if diff or failed:
+            if not report(ctx, rs, "landscape plot: %s; statement clauses failing: %s"
+                          % (("code and model differ (%s)" % diff) if diff else "code and model agree", failed or "none"),
+                          case, failed, line, diff):
                 return
 
 
